@@ -32,6 +32,12 @@ pub mod unmanaged;
 #[cfg(deadpool_verif)]
 mod verif_sync;
 
+/// Simulator hooks, re-exported for the manager crates (only with
+/// `--cfg deadpool_verif`).
+#[cfg(deadpool_verif)]
+#[doc(hidden)]
+pub use deadpool_runtime::verif;
+
 pub use deadpool_runtime::{Runtime, SpawnBlockingError};
 
 /// The current pool status.
